@@ -259,11 +259,11 @@ def opts_to_argv(opts):
     if opts.get('non_unit'):
         argv.append('-f')
     if opts.get('at_level') is not None:
-        argv += ['--at-level', str(opts['at_level'])]
+        argv.append('--at-level=%d' % opts['at_level'])
     if opts.get('all'):
         argv.append('--all')
     if opts.get('only_level') is not None:
-        argv += ['--only-level', str(opts['only_level'])]
+        argv.append('--only-level=%d' % opts['only_level'])
     if opts.get('repeat'):
         argv += ['--repeat', str(opts['repeat'])]
     if opts.get('shuffle_seed') is not None:
